@@ -766,6 +766,11 @@ class StretchyTreeMatcher:
             # the children noting the special case when the nodes of the array are actually parameters of the node
             # (e.g. a load function) instead of a child node
             if not ignore_field:
+                # a list made only of plain values (e.g. the names of a global statement) is
+                # content, not children: it has to be the same list, not a common prefix
+                if (ins_value and len(ins_value) != len(std_value) and
+                        not any(isinstance(v, ast.AST) for v in ins_value + std_value)):
+                    is_match = False
                 for inssub_value, stdsub_value in zip(ins_value, std_value):
                     if not is_match:
                         break
